@@ -95,7 +95,7 @@ def run(ctx):
     q = ctx.tier == "quick"
     # --- generated scripts: predicate on engine output + names_of vs semantic_analysis
     cases = []
-    while len(cases) < (200 if q else 6000):
+    while len(cases) < (120 if q else 6000):
         c = exprk.make_case(ctx.rng, ctx.rng.choice([1, 2, 3]), risky_div=False)
         if c:
             cases.append(c)
@@ -128,7 +128,7 @@ def run(ctx):
     done = 0
     errs = {}
     for c in corpus.enumerate_cases(rng=ctx.rng):
-        if done >= (120 if q else 2300):
+        if done >= (60 if q else 2300):
             break
         structs = {"datasets": [d for s in c.structures for d in s.get("datasets", [])]}
         sc = [x for s in c.structures for x in s.get("scalars", [])]
